@@ -961,7 +961,7 @@ def parseDefL (cs : List Char) : Option DefFile :=
 
 def parseDef (s : String) : Option DefFile := parseDefL s.toList
 
-/-! ## hand-over to the routing model `KV.Def` (Model/Def.lean): the `DefWire` records of a net's ROUTED statement -/
+/-! ## hand-over to the routing model `KV.Def` (Model/Def.lean): the `DefWire` records of a net's wiring statements -/
 def natOf (t : Txt) : Nat := t.foldl (fun acc c => 10 * acc + (c.toNat - '0'.toNat)) 0
 /-- `int()` of a NUMBER / SIGNED_NUMBER token -/
 def intOf (t : Txt) : Int :=
@@ -977,14 +977,34 @@ def TItem.toItem (sp : Bool) : TItem → KV.Def.Item
   | .via v o => .via (String.ofList v) (if sp then none else some (String.ofList (o.getD ['N'])))
   | .arr v d => .arr (String.ofList v) (natOf d.nx) (natOf d.ny) (intOf d.dx) (intOf d.dy)
 
-def TWire.toWire (sp : Bool) (w : TWire) : KV.Def.Wire :=
-  ⟨String.ofList w.layer, w.width.map natOf, w.start.toR, w.rest.map (TItem.toItem sp)⟩
+/-- the `DefWire` record handed to the routing model.  `DefNet.wires` evaluates `int(dw.width)` on the width token of a
+special-net wire (a lark `NUMBER`: digits, or a decimal / exponent form such as `1.5`); `int()` raises `ValueError` on
+everything but plain digits (`intOK`), so the hand-over is `none` there — it is NOT totalised to a number. -/
+def TWire.toWire (sp : Bool) (w : TWire) : Option KV.Def.Wire :=
+  match w.width with
+  | none => some ⟨String.ofList w.layer, none, w.start.toR, w.rest.map (TItem.toItem sp)⟩
+  | some t => if intOK t then some ⟨String.ofList w.layer, some (natOf t), w.start.toR, w.rest.map (TItem.toItem sp)⟩ else none
 
-/-- `dnet.routed`: the wires of the LAST `+ ROUTED` statement (`setattr` overwrites); `none` = no such statement -/
-def TNet.routed (sp : Bool) (n : TNet) : Option (List KV.Def.Wire) :=
-  (n.parts.filterMap fun | .wiring .Routed ws => some (ws.map (TWire.toWire sp)) | _ => none).getLast?
+/-- the wires of ALL wiring statements of a net (`+ COVER | FIXED | ROUTED | NOSHIELD`) in file order: what the repaired
+`spnets_stmt` / `nets_stmt` (D35: `dnet.routed.extend(...)`) collect in `dnet.routed` -/
+def TNet.wiresT (n : TNet) : List TWire := n.parts.flatMap fun | .wiring _ ws => ws | _ => []
 
-/-- all nets of the file in file order: (special?, name, routed wires) -/
+def allSome {α : Type} : List (Option α) → Option (List α)
+  | [] => some []
+  | none :: _ => none
+  | some a :: r => (allSome r).map (a :: ·)
+
+/-- `dnet.routed` as `DefWire` records of the routing model; `none` = some listed width is not an integer token
+(`DefNet.wires` raises `ValueError`) -/
+def TNet.routed (sp : Bool) (n : TNet) : Option (List KV.Def.Wire) := allSome (n.wiresT.map (TWire.toWire sp))
+
+/-- the reading of the tree BEFORE repair D35: `setattr(dnet, 'routed', wires)` — the wires of the LAST `+ ROUTED`
+statement only; earlier `+ ROUTED` statements and all `+ FIXED` / `+ COVER` / `+ NOSHIELD` wiring are not listed.
+Used by the demonstration theorem `C20.wiring_last_only_loses` only. -/
+def TNet.wiresTOld (n : TNet) : List TWire :=
+  ((n.parts.filterMap fun | .wiring .Routed ws => some ws | _ => none).getLast?).getD []
+
+/-- all nets of the file in file order: (special?, name, wires of all wiring statements) -/
 def DefFile.netsRouted (f : DefFile) : List (Bool × Txt × Option (List KV.Def.Wire)) :=
   f.stmts.flatMap fun
     | .design _ ss => ss.flatMap fun
